@@ -1,7 +1,8 @@
 pub mod c01;
+pub mod c04;
 
 use crate::driver::Prop;
 
 pub fn all() -> Vec<&'static Prop> {
-    vec![&c01::PROP]
+    vec![&c01::PROP, &c04::PROP]
 }
